@@ -6,6 +6,8 @@ export CARGO_NET_OFFLINE=true
 cargo build --offline --release --manifest-path harness/Cargo.toml --target-dir .build/release
 cargo build --offline --profile checked --manifest-path harness/Cargo.toml --target-dir .build/checked
 cargo build --offline --release --manifest-path /repo/Cargo.toml --target-dir .build/cli
+# getenv interposer used by the configuration shards
+cc -shared -fPIC -O1 -o .build/envshim.so tools/envshim.c -ldl || true
 # Miri build of the harness (sysroot + dependencies); failure here only makes the first C15 run slower
 cargo +nightly miri setup >/dev/null 2>&1 || true
 echo "setup done"
